@@ -62,12 +62,19 @@ func tmpDir() string {
 
 // H_C12_store_load: Store then Load (same loader and a fresh loader) returns the stored session; a second
 // Store with any modification time t2 >= t1 (equal allowed: clock granularity) is what Load returns next.
-func H_C12_store_load(keyLen, hostLen, sameLoader int) {
+func H_C12_store_load(keyLen, hostLen, sameLoader int) { storeLoad(keyLen, hostLen, keyLen, hostLen, sameLoader) }
+
+// H_C12_store_load2: the second session has a different size (shorter or longer) than the first.
+func H_C12_store_load2(keyLen1, hostLen1, keyLen2, hostLen2 int) {
+	storeLoad(keyLen1, hostLen1, keyLen2, hostLen2, 1)
+}
+
+func storeLoad(keyLen, hostLen, keyLen2, hostLen2, sameLoader int) {
 	dir := tmpDir()
 	defer os.RemoveAll(dir)
 	path := filepath.Join(dir, "session.json")
 	s1 := symSession(keyLen, 8, hostLen)
-	s2 := symSession(keyLen, 8, hostLen)
+	s2 := symSession(keyLen2, 8, hostLen2)
 	t1 := int64(verifrt.U32())
 	dt := int64(verifrt.Byte())
 	l := NewFromFile(path)
